@@ -243,3 +243,12 @@ Example C15_ex_hostile_rejected :
      "cue.mod/local-module.cue"; "Cue.Mod/Module.cue"; "cue.mod/module.cue"; "nul.txt"; "a."; "a//b"; "./a"]%string = true.
 Proof. exact ex_hostile_rejected. Qed.
 Print Assumptions C15_ex_hostile_rejected.
+
+(* Create writes the valid files in byte order of their paths (sort_files is a sorted permutation) *)
+Theorem C15_create_order : forall l, Sorted.Sorted name_le (sort_files l).
+Proof. exact sort_files_sorted. Qed.
+Print Assumptions C15_create_order.
+
+Theorem C15_create_sort_permutes : forall x l, In x (sort_files l) <-> In x l.
+Proof. exact In_sort_files. Qed.
+Print Assumptions C15_create_sort_permutes.
